@@ -163,6 +163,69 @@ def run(ctx, res):
             res.bad("FLAG-CONSUME", "eval::eval # flag-store-elsewhere",
                     "the interrupt flag is written outside the consumed-interrupt edge (an interrupt could be lost)", f.loc(f.blocks[ob]["term"]["span"]))
 
+    # ---- ENTRY-INDEPENDENT: `:resume` re-enters eval() in the middle of the evaluation, at whatever depth the interrupt left.
+    # Every decision inside the loop must therefore be computed from the machine state inside the loop; a value captured
+    # before the loop (the stack depth at entry, say) is different on re-entry, and a branch on it makes the resumed run
+    # diverge from the uninterrupted one.
+    loop_body = set()
+    for (h_, a_, body_) in D.natural_loops(f):
+        if L.pop_bb in body_:
+            loop_body |= set(body_)
+    n_dec = 0
+
+    def entry_value(op, depth=6):
+        """a description of a pre-loop computed value `op` depends on, or None."""
+        if depth == 0:
+            return None
+        r_ = f.root_of(op)
+        if r_[0] == "const":
+            return None
+        if r_[0] == "call":
+            if r_[1] not in loop_body and f.dominates(r_[1], L.pop_bb):
+                return "%s computed before the loop (%s)" % ((M.callee_name(r_[2]) or "a call").split("::")[-1], f.loc(r_[2].get("span")))
+            for a in r_[2]["args"]:
+                x = entry_value(a, depth - 1)
+                if x:
+                    return x
+            return None
+        if r_[0] == "rv":
+            rv = r_[3]["rv"]
+            for k_ in ("a", "b"):
+                if k_ in rv and isinstance(rv[k_], dict):
+                    x = entry_value(rv[k_], depth - 1)
+                    if x:
+                        return x
+            for o in rv.get("ops", []):
+                x = entry_value(o, depth - 1)
+                if x:
+                    return x
+            return None
+        if r_[0] == "place":
+            l_ = r_[1]["l"]
+            if l_ <= f.argc:
+                return None
+            for (b_, si_, st_) in f.defs.get(l_, []):
+                if b_ not in loop_body and f.dominates(b_, L.pop_bb):
+                    if si_ == "term":
+                        return "%s computed before the loop (%s)" % ((M.callee_name(st_) or "a call").split("::")[-1], f.loc(st_.get("span")))
+                    if st_["rv"]["k"] == "use" and M.op_const(st_["rv"].get("a")) is not None:
+                        continue
+                    if st_["rv"]["k"] in ("ref", "use", "cast", "binop", "unop", "len", "discr"):
+                        return "a value computed before the loop (%s)" % f.loc(st_.get("span"))
+        return None
+    for bi in sorted(loop_body):
+        t = f.blocks[bi]["term"]
+        if t["t"] != "switch":
+            continue
+        n_dec += 1
+        why = entry_value(t["discr"])
+        if why:
+            res.bad("ENTRY-INDEPENDENT", "eval::eval # loop decision on an entry-time value",
+                    "a branch inside the interpreter loop depends on %s: `:resume` re-enters eval() with a different value there, so the resumed "
+                    "evaluation takes another path than the uninterrupted one" % why, f.loc(t.get("span")))
+    res.floor("ENTRY-INDEPENDENT", "branches inside the interpreter loop", n_dec, 20)
+    res.ok("ENTRY-INDEPENDENT", "%d branches inside the loop inspected: none depends on a value computed before the loop" % n_dec)
+
     # ---- RESTORE-INVERSE ---------------------------------------------------------------
     g = P.require_fn("eval::restore_stack_frame")
     pushes_pair = False
